@@ -675,6 +675,11 @@ class Hugr(Mapping[Node, NodeData], Generic[OpVarCov]):
                 metadata=node_data.metadata,
             )
 
+        # The copies were registered with their parents in index order, which is
+        # not the order of the children if `hugr` reused the index of a deleted node.
+        for node, node_data in hugr.nodes():
+            self[mapping[node]].children = [mapping[c] for c in node_data.children]
+
         for src, dst in hugr._links.items():
             self.add_link(
                 mapping[src.port.node].out(src.port.offset),
